@@ -129,6 +129,10 @@ package federation
 // against the type it is executed against, and it is the validated query that is executed.
 //@ func ExecuteRequest
 //@   call NewRerunner assume ret0 != nil          // NewRerunner returns the rerunner it allocated
+//@   ghost validated bool
+//@   entry ghost validated = false
+//@   call PrepareQuery ghost validated = ret0 == nil
+//@   call NewRerunner assert validated             // a rejected sub-request is answered with its error and nothing of it is executed
 //@   call PrepareQuery assert arg1 == schema && arg2 == query.SelectionSet && (query.Kind == "mutation" ==> schema == gqlSchema.Mutation) && (query.Kind == "query" ==> schema == gqlSchema.Query)
 //@ func ExecuteRequest$1
 //@   call Execute assert arg2 == schema && arg4 == query
